@@ -164,12 +164,23 @@ inductive UErr where
   | fuel
   deriving DecidableEq, Repr
 
-/-- collect segments up to the close placeholder: `(text, rest)` -/
-def collectUntil (close : Option Nat) : List (Sum Str Char) → Str → Except UErr (Str × List (Sum Str Char))
-  | [], _ => .error .popEmpty
-  | Sum.inl s :: rest, acc => collectUntil close rest (acc ++ s)
-  | Sum.inr c :: rest, acc =>
-    if some c.toNat = close then .ok (acc, rest) else collectUntil close rest (acc ++ [c])
+/-- collect segments up to the close placeholder of the element just opened: `(text, rest)`.  Marked copies of one
+element share their closing placeholder and can end up nested, so every opening placeholder with the same closing one
+met on the way raises `depth` and its closing placeholder lowers it again. -/
+def collectUntil (st : PhSt) (close : Option Nat) :
+    Nat → List (Sum Str Char) → Str → Except UErr (Str × List (Sum Str Char))
+  | _, [], _ => .error .popEmpty
+  | d, Sum.inl s :: rest, acc => collectUntil st close d rest (acc ++ s)
+  | d, Sum.inr c :: rest, acc =>
+    if some c.toNat = close then
+      (match d with
+        | 0 => .ok (acc, rest)
+        | d' + 1 => collectUntil st close d' rest (acc ++ [c]))
+    else
+      let d' := match st.entryOf c.toNat with
+        | some e => if e.role = .open ∧ e.closePh = close then d + 1 else d
+        | none => d
+      collectUntil st close d' rest (acc ++ [c])
 
 mutual
   /-- `undo_string(text)`: `(wrap.text, children of wrap)` -/
@@ -199,7 +210,7 @@ mutual
           let el := eraseIds el0
           match e.role with
           | .open =>
-            match collectUntil e.closePh rest [] with
+            match collectUntil st e.closePh 0 rest [] with
             | .error err => .error err
             | .ok (inner, rest') =>
               let el1 := setTailT none (setText (if inner.isEmpty then none else some inner) el)
